@@ -72,13 +72,18 @@ CLAIMED = {
     'C18': _c("call-graph who-may-call + guard analysis of the server code instantiated with an external key type; term equality with the direct-key instantiation",
               "Decides the structure completely: which SecretKey methods are invoked, that their errors reach the caller unchanged on every path, no unwrap, no response before the DH outcome, "
               "that external-key and direct-key runs compute the same terms, and that the stored setup image is seed || the key's own encoding || fake key and reloads.", "DESIGN.md section 5 C18"),
+    'C19': _c("term analysis (path-partitioned abstract interpretation of monomorphic MIR over an uninterpreted term domain) of the three KeGroup impls and the KeyPair/PrivateKey/PublicKey wrappers, compared with reference terms and frozen tables of reviewed dependency functions",
+              "Decides ONLY the structural clauses of the group laws, for all five groups: public_key = generator*sk and diffie_hellman = encode(pk*sk) are single reviewed multiplications of the unmodified arguments from one "
+              "arithmetic family (plain or clamped); every wrapper pairs a private key with KeGroup::public_key of that same key and hands payloads through unmodified; the four codecs of each group are pure dependency "
+              "codecs from one reviewed inverse pair; seeded derivation is the DeriveDiffieHellmanKeyPair formula over the reviewed HashToScalar and returns only zero-tested results (clamp for Curve25519); random_sk is a "
+              "reviewed sampler behind a zero test. NOT decided: that the dependencies' scalar multiplication commutes, that their codecs are inverse on all values, numeric equality with the RFC vectors - the arithmetic "
+              "content of C19 is out of reach of any analysis of this repository's source and is assumed.", "DESIGN.md section 5 C19"),
     'C17': _c("who-may-call analysis over the whole monomorphic call graph (deny-list of entropy/time/IO items, RNG receiver types) + provenance of each random quantity",
               "Decides for the production build where every random quantity comes from (a distinct draw on the caller's generator) and that no other entropy, time or global state is "
               "reachable. That independent tapes give different values is the tape's property.", "DESIGN.md section 5 C17"),
 }
 
 NA = {
-    'C19': "group-law identities (DH symmetry, encoding round-trips, equality with DeriveDiffieHellmanKeyPair) are numerical facts about field/scalar arithmetic inside curve25519-dalek / primeorder / elliptic-curve; no structural fact about opaque-ke's three thin KeGroup impls entails them, and an idiom rule would fire on behaviour-preserving edits (DESIGN.md section 5 C19)",
 }
 
 
